@@ -55,6 +55,17 @@ class Driver(concdrv.ConcMixin):
         br.handlers['Channel.Open'] = on_open
         for op in ops:
             out = 'RNone'
+            if op[0] == 'badclose':
+                # close() with an ill-typed argument is refused and changes nothing: it is not an
+                # operation of the model, whatever it does shows in the observations that follow
+                from amqpstorm.exception import AMQPInvalidArgument
+                if op[1] in conn._channels:
+                    try:
+                        conn._channels[op[1]].close(reply_text=None)
+                    except AMQPInvalidArgument:
+                        pass
+                    vconn.settle(rt, 1)
+                continue
             try:
                 if op[0] == 'open':
                     ch = conn.channel(rpc_timeout=2)
@@ -104,7 +115,7 @@ class Driver(concdrv.ConcMixin):
     def make_case(self, mx, ops):
         ops = [tuple(o) for o in ops]
         obs = self.run_ops(mx, ops)
-        cin = '(%s, %s)' % (coq_nat(mx), coq_list([op_coq(o) for o in ops]))
+        cin = '(%s, %s)' % (coq_nat(mx), coq_list([op_coq(o) for o in ops if o[0] != 'badclose']))
         return dict(cin=cin, cobs=coq_list(obs), meta=dict(max=mx, ops=ops))
 
     def corpus_cases(self):
@@ -139,7 +150,10 @@ class Driver(concdrv.ConcMixin):
             alpha = self.alphabet(mx)
             w = [6, 1, 1] + [2, 1] * mx
             n = rnd.randrange(3, 41)
-            out.append((mx, tuple(rnd.choices(alpha, weights=w, k=n))))
+            seq = list(rnd.choices(alpha, weights=w, k=n))
+            if rnd.random() < 0.3:
+                seq.insert(rnd.randrange(1, len(seq) + 1), ('badclose', rnd.randrange(1, mx + 1)))
+            out.append((mx, tuple(seq)))
         return [self.make_case(mx, ops) for mx, ops in out] + self.conc_cases(tier, seed)
 
     def replay_cases(self, doc):
